@@ -447,4 +447,41 @@ def answeredWith (kind : Nat) (entry : Val × List Val) : Bool :=
     Val.beq k (.int (kind : Nat)) && Val.beq seq seq' && conformingMessage (.tuple [k, seq', body])
   | _, _ => false
 
+/-- the single response recorded for the request with sequence number `seq` -/
+def responseTo (served : List (Val × List Val)) (seq : Int) : Option Val :=
+  match served.find? (fun e => match e.1 with
+      | .tuple [_, .int s, _] => s == seq
+      | _ => false) with
+  | some (_, [r]) => some r
+  | _ => none
+
+def isResponse (expected : Val) (r : Option Val) : Bool :=
+  match r with
+  | some v => Val.beq v expected
+  | none => false
+
+/-- a recorded reply has the shape published for the handler of its request -/
+def replyShapeOk (entry : Val × List Val) : Bool :=
+  match Msg.ofVal? entry.1, entry.2 with
+  | some (.request _ h _), [r] =>
+    (match Msg.ofVal? r with
+      | some (.reply _ b) => replyConforms h b
+      | some (.exception _ _) => true
+      | _ => false)
+  | _, _ => false
+
+/-- `((module, name), args, attrs, tb)`: does the dumped exception name that class, carry those arguments, that
+attribute, `_remote_version`, and a traceback text starting with `tbPrefix` -/
+def dumpedIs (modName clsName : List Nat) (args : Val) (attr : Option Val) (tbPrefix : List Nat) : Option Val → Bool
+  | some (.tuple [_, _, .tuple [.tuple [.str m, .str c], a, .tuple attrs, .str tb]]) =>
+    m == modName && c == clsName && Val.beq a args
+      && (match attr with
+          | some x => attrs.any (Val.beq x)
+          | none => true)
+      && attrs.any (fun x => match x with
+          | .tuple [.str n, _] => n == [95, 114, 101, 109, 111, 116, 101, 95, 118, 101, 114, 115, 105, 111, 110]
+          | _ => false)
+      && tbPrefix.isPrefixOf tb
+  | _ => false
+
 end Rpyc.Spec
